@@ -33,3 +33,7 @@ Proof. exact tie_footprint. Qed.
    could write its backing store, beyond the reviewed read-only uses *)
 Theorem C19_aliases : forallb allowed_alias G.global_aliases = true.
 Proof. exact tie_aliases. Qed.
+(* nor does any function of package bmc write through a parameter other than its receiver - the options value and the
+   preference list a caller passes in (and may share between goroutines and connections) are only read *)
+Theorem C19_callers_values_only_read : G.param_writes = nil.
+Proof. exact tie_param_writes. Qed.
